@@ -1,6 +1,7 @@
 package stdlib
 
 import (
+	"math"
 	"rare/pkg/color"
 	. "rare/pkg/expressions" //lint:ignore ST1001 Legacy
 	"rare/pkg/multiterm/termscaler"
@@ -44,6 +45,9 @@ func kfRepeat(args []KeyBuilderStage) (KeyBuilderStage, error) {
 		count, err := strconv.Atoi(args[1](context))
 		if err != nil {
 			return ErrorNum
+		}
+		if count < 0 || (len(char) > 0 && count > math.MaxInt/len(char)) {
+			return ErrorValue
 		}
 		return strings.Repeat(char, count)
 	}), nil
